@@ -29,7 +29,8 @@ SUBGRID = [Fraction(-2), Fraction(1, 2), Fraction(3)]
 CMPS = ["=", "<=", ">=", "<", ">"]
 RULE = ("(a) all binary expression trees with <= 5 nodes (quick) / <= 7 nodes, depth <= 4 (thorough: 7-node trees on a 4-leaf "
         "alphabet) over + - * / and leaves {(f),(g ?x),(g ?y),2,0.5,-1}; direct evaluation on every valuation of the 6-point "
-        "grid; through actions (5 comparison operators against 2 constants; assign/increase/decrease) on a 3-point sub-grid; "
+        "grid; through actions (5 comparison operators against 2 constants; assign/increase/decrease; 4 actions with several mutually "
+        "dependent updates) on a 3-point sub-grid; "
         "(b) 5 operators x deltas {0, eps/2, ~eps (0.999/1.001 for the non-dyadic default), eps(1+2^-20), 2 eps} both signs x "
         "magnitudes {0,1,-1,1000} x EPSILON in {default 1e-4, 2^-3, 2^-10}; (c) 12 expressions x digits {default,0,2,4,6} x "
         "NUMERIC_PRECISION in {unset,2,6}. non-trivial = a tree with >= 1 operator and >= 1 fluent")
@@ -72,6 +73,7 @@ def cases(tier):
                 batch = []
     if batch:
         yield {"kind": "eval", "trees": batch}
+    yield {"kind": "mutual"}
     for eps in (None, "0.125", "0.0009765625"):
         yield {"kind": "boundary", "eps": eps}
     for prec in (None, "2", "6"):
@@ -288,7 +290,45 @@ def check_print(r, case):
             return
 
 
+MUTUAL = [  # (effect text, {target: expression over PRE-state values}) - several updates in one action
+    ("(and (increase (out) (f)) (decrease (f) (out)))", {"out": "(+ (out) (f))", "f": "(- (f) (out))"}),
+    ("(and (assign (out) (f)) (assign (f) (out)))", {"out": "(f)", "f": "(out)"}),
+    ("(and (increase (f) (g ?x)) (assign (g ?x) (* (f) 2)) (decrease (out) (g ?x)))",
+     {"f": "(+ (f) (g ?x))", "g ?x": "(* (f) 2)", "out": "(- (out) (g ?x))"}),
+    ("(and (assign (g ?x) (g ?y)) (assign (g ?y) (g ?x)))", {"g ?x": "(g ?y)", "g ?y": "(g ?x)"}),
+]
+
+
+def check_mutual(r, case):
+    r.nontrivial = True
+    S = RefDomain.from_tree(sexp.read(HDR + ")"))
+    for eff, want in MUTUAL:
+        D = _dom(f":precondition (and) :effect {eff}")
+        for vals in product(SUBGRID, repeat=4):
+            pre = RefState([], {("f",): vals[0], ("g", "o1"): vals[1], ("g", "o2"): vals[2], ("out",): vals[3]})
+            exp = dict(pre.fluents)
+            for tgt, expr in want.items():
+                key = tuple(BETA.get(t, t) for t in tgt.split(" "))
+                exp[key] = value(S, sexp.read(expr), BETA, pre)
+            init = " ".join(f"(= ({' '.join(k)}) {fmt_num(x)})" for k, x in pre.fluents.items())
+            ptxt = f"(define (problem p) (:domain c12) (:objects o1 o2 - t1) (:init {init}) (:goal (and)))"
+
+            def q():
+                from pddl_plus_parser.multi_agent.common import create_initial_state
+                P = parse_problem(ptxt, D)
+                return observe_state(operator(D, "a", ["o1", "o2"], P.objects).apply(create_initial_state(P)))
+            got = guard(q)
+            r.count("transitions")
+            r.count("states")
+            if isinstance(got, Raised) or got.fluents != exp:
+                r.fail("simultaneous-assignment", f"{eff} from { {' '.join(k): str(v) for k, v in pre.fluents.items()} }: "
+                       f"{got if isinstance(got, Raised) else got.to_json()}, expected "
+                       f"{ {' '.join(k): str(v) for k, v in exp.items()} } (all right-hand sides read the state before the "
+                       f"action)", str(exp), str(got), tags=["mutual"])
+                return
+
+
 def check_case(case):
     r = CaseResult()
-    {"eval": check_eval, "boundary": check_boundary, "print": check_print}[case["kind"]](r, case)
+    {"eval": check_eval, "boundary": check_boundary, "print": check_print, "mutual": check_mutual}[case["kind"]](r, case)
     return r
